@@ -92,5 +92,18 @@ def register(PROPS, HARNESS_PKGS):
             "pkg": "internal/adapter/translator/anthropic", "test": "TestVerif_AnthropicStream",
             "trace": {"module": "AnthropicStreamTrace", "cfg": "AnthropicStream_trace.cfg"},
             "nontrivial": _nontrivial,
+        }, {
+            # the same clause through the assembled server: proxy engine -> response recorder -> pipe -> translator
+            "name": "wire",
+            "mc": [],
+            "quick": {"gen": [{"module": "AnthropicWire", "cfg": "AnthropicWire_gen.cfg",
+                               "params": {"Cuts": '{"whole", "event", "payload_nl", "line", "n7"}'}}]},
+            "thorough": {"gen": [{"module": "AnthropicWire", "cfg": "AnthropicWire_gen.cfg",
+                                  "params": {"Cuts": '{"whole", "event", "payload_nl", "line", "n7", "byte"}'}}]},
+            "pkg": "internal/app", "test": "TestVerif_Wire",
+            "harness_dirs": ["app"], "harness_files": ["stack_test.go", "wire_test.go"],
+            "trace": {"module": "AnthropicWireTrace", "cfg": "AnthropicWire_trace.cfg"},
+            "nontrivial": lambda s: s["cut"] != "whole",
         }],
     }
+    HARNESS_PKGS.setdefault("app", "internal/app")
